@@ -5,19 +5,9 @@ import os
 
 VERIF = os.path.dirname(os.path.dirname(os.path.abspath(__file__)))
 
-CLAIMS = {}   # filled by register()
-NA = {}
-
-
-def claim(pid, text, note, technique, design_ref):
-    CLAIMS[pid] = dict(text=text, note=note, technique=technique, design_ref=design_ref)
-
-
-def na(pid, reason):
-    NA[pid] = reason
-
-
-import manifest_table  # noqa: E402,F401  (populates CLAIMS / NA)
+import sys
+sys.path.insert(0, os.path.dirname(os.path.abspath(__file__)))
+from manifest_table import CLAIMS, NA  # noqa: E402
 
 
 def main():
